@@ -184,6 +184,6 @@ package fasthttp
 //@ func acquirePerIPConn results w
 //@   property C12
 //@   mode skeleton
-//@   fields perIPConn
+//@   fields perIPConn, perIPTLSConn
 //@   class perIPConnCounter kept: the pool belongs to this counter, a recycled wrapper already points at it
 //@   class lock kept: the wrapper's own mutex, unlocked when the wrapper is pooled
